@@ -43,8 +43,13 @@ fn main() {
                 std::process::exit(2);
             }
         };
-        let v: serde_json::Value = match serde_json::from_str(&text) {
-            Ok(v) => v,
+        let v: serde_json::Value = match serde_json::from_str::<serde_json::Value>(&text) {
+            Ok(mut v) => {
+                if let Some(o) = v.as_object_mut() {
+                    o.insert("_path".into(), serde_json::Value::String(args[3].clone()));
+                }
+                v
+            }
             Err(e) => {
                 eprintln!("HARNESS-ERROR: replay does not parse: {}", e);
                 std::process::exit(2);
